@@ -513,9 +513,10 @@ theorem gen_wait_handlers :
     Gen.C03.v1.waitHandlers = [(.timeoutError, true, "InterestTimeout()"), (.cancelledError, true, "InterestCanceled()")] := by
   decide
 
-/-- `express_raw_interest`: implicit digest split off, `setdefault` of the node, `append_interest`, send, wait -/
+/-- `express_raw_interest`: implicit digest (a Type-1 component with a 32-byte value) split off, `setdefault` of the
+    node, `append_interest`, send, wait -/
 theorem gen_express :
-    Gen.C03.v2.express = "{if Component.TYPE_IMPLICIT_SHA256 == Component.get_type(final_name[-1]): node_name = final_name[:-1]; implicit_sha256 = Component.get_value(final_name[-1]) else: node_name = final_name; implicit_sha256 = b''} PIT.setdefault(node_name, InterestTreeNode()) create_future,setdefault,append_interest,send,_wait_for_data" ∧
+    Gen.C03.v2.express = "{if Component.TYPE_IMPLICIT_SHA256 == Component.get_type(final_name[-1]) and len(Component.get_value(final_name[-1])) == 32: node_name = final_name[:-1]; implicit_sha256 = Component.get_value(final_name[-1]) else: node_name = final_name; implicit_sha256 = b''} PIT.setdefault(node_name, InterestTreeNode()) create_future,setdefault,append_interest,send,_wait_for_data" ∧
     Gen.C03.v1.express = Gen.C03.v2.express := ⟨rfl, rfl⟩
 
 /-- `_remove_pending`: the node is unlinked only when it is empty AND still the node linked under the name -/
